@@ -20,6 +20,7 @@ type SrvWorld struct {
 	LF  *SimLoggerFactory
 
 	Srv     *turn.Server
+	Mini    *miniServer // handler-level server (chosen nonce manager), when cfg.Nonce is set
 	SrvAddr *net.UDPAddr
 	srvSock *UDPSock
 	srvLn   *TCPListener
@@ -298,6 +299,10 @@ func (w *SrvWorld) Start() {
 			w.srvSock = s
 			sc.PacketConnConfigs = []turn.PacketConnConfig{{PacketConn: s, RelayAddressGenerator: w.Gen, PermissionHandler: ph}}
 		}
+		if cfg.Nonce != "" && cfg.Nonce != "server" && w.srvSock != nil {
+			w.Mini = newMiniServer(w, sc, w.srvSock, ph)
+			return
+		}
 		srv, err := turn.NewServer(sc)
 		if err != nil {
 			Fatalf("NewServer: %v", err)
@@ -509,6 +514,9 @@ func (w *SrvWorld) closeServer() {
 		if w.Srv != nil {
 			_ = w.Srv.Close()
 		}
+		if w.Mini != nil {
+			w.Mini.Close()
+		}
 	})
 }
 
@@ -534,11 +542,17 @@ func (w *SrvWorld) finish() {
 }
 
 func (w *SrvWorld) allocCount() int {
-	if w.Srv == nil || w.closedSrv {
+	if (w.Srv == nil && w.Mini == nil) || w.closedSrv {
 		return -1
 	}
 	n := -1
-	w.inspect(func() { n = w.Srv.AllocationCount() })
+	w.inspect(func() {
+		if w.Mini != nil {
+			n = w.Mini.am.AllocationCount()
+		} else {
+			n = w.Srv.AllocationCount()
+		}
+	})
 	return n
 }
 
